@@ -17,8 +17,8 @@ MANIFEST = {
              'its column), C09_blocks_append, C09_blocks_column_read, C09_hier_append; unconditional C09_index_labels_never_lost, '
              'C09_index_append_atomic, C09_hier_append_rejected; never shared: C09_never_shared and C09_growth_isolated over every interleaving of '
              'growth with to_frame/to_frame_go/to_frame_he/Frame(f)/FrameGO(f)/FrameHE(f), stated over decision tables REGENERATED from the AST of '
-             'frame.py/container_util.py/index.py/type_blocks.py on every run (C09_index_filters_copy_across_the_boundary). Refuted/C09.v: five '
-             'witnesses that the guards are necessary (the known findings; the sixth, IndexLevelGO.append misplacing a key, was repaired by fix 5320f59 and C09_hier_append now holds without a guard). Correspondence: recorded histories of the real containers (valid, '
+             'frame.py/container_util.py/index.py/type_blocks.py on every run (C09_index_filters_copy_across_the_boundary). Refuted/C09.v: four '
+             'witnesses that the guards are necessary (the known findings; two more, IndexLevelGO.append misplacing a key and the loc_is_iloc append of 1.0, were repaired by fixes 5320f59 / feb832d: C09_hier_append and C09_index_append_refines now hold without a guard). Correspondence: recorded histories of the real containers (valid, '
              'duplicate, partially duplicate, wrong length, 2-D, unaligned index, wrong depth) replayed through M and S inside Coq after every '
              'step; object identity of _columns/_blocks between all live frames compared with the world model; ~100 public derivations x 13 '
              'sources grown in both directions with every other live container re-read and mutable members compared by identity.'),
@@ -160,8 +160,6 @@ def classify_index_ops(auto, labels, ops):
             intlike = isinstance(v, (int, np.integer))      # bool is an int
             now = cur + added
             if _in(v, now):
-                if is_auto and not intlike:
-                    return F_AUTO
                 if k > 0:
                     return F_IDX_EXT
                 rejected = True                               # rejected at the first label: nothing appended
@@ -545,8 +543,6 @@ def classify_frame_ops(init, ops):
             intlike = isinstance(v, (int, np.integer))
             now = cur + added
             dup = _in(v, now)
-            if dup and is_auto and not intlike and valid:
-                return F_AUTO
             if dup or not valid:
                 if k > 0:
                     return partial
